@@ -36,6 +36,7 @@ type Contract struct {
 	Loops      map[int][]Clause  // loop ordinal (1-based, source order) -> invariants
 	LoopMods   map[int][]string
 	Guards     []guardSpec
+	Emits      []Clause // ghost events appended to the trace, in order (assumed contracts of hook interfaces)
 	File       string
 	Line       int
 }
@@ -71,7 +72,7 @@ func NewContractSet() *ContractSet {
 var labelRe = regexp.MustCompile(`^(\w+)\[([^\]]+)\]\s*(.*)$`)
 
 var clauseKinds = map[string]bool{"requires": true, "ensures": true, "invariant": true, "nopanic": true,
-	"modifies": true, "flag": true, "before": true, "hyp": true, "goal": true, "cover": true, "loopmodifies": true}
+	"modifies": true, "flag": true, "before": true, "emits": true, "hyp": true, "goal": true, "cover": true, "loopmodifies": true}
 
 // LoadContractFile parses one contract file; pkgPath is the import path its designators are relative to
 // ("" for library files that use fully qualified designators).
@@ -166,6 +167,8 @@ func (cs *ContractSet) LoadContractFile(path, pkgPath string) error {
 		switch p.kind {
 		case "requires":
 			cur.Requires = append(cur.Requires, c)
+		case "emits":
+			cur.Emits = append(cur.Emits, c)
 		case "ensures":
 			cur.Ensures = append(cur.Ensures, c)
 		case "invariant":
